@@ -2,7 +2,7 @@
 //! textual integers of the case files and dashu values *through raw words only* (no parser or
 //! printer of the library under test is involved), panic capture and classification.
 
-use dashu_int::{IBig, Sign, UBig, Word};
+pub use dashu_int::{IBig, Sign, UBig, Word};
 use std::io::{BufRead, Write};
 use std::panic::{catch_unwind, AssertUnwindSafe};
 
@@ -144,4 +144,112 @@ pub fn serve<F: Fn(&str, &[&str]) -> String>(f: F) {
         writeln!(out, "{} {}", id, ans).unwrap();
         out.flush().unwrap();
     }
+}
+
+// ------------------------------------------------------------------------------------------------
+// floats and rationals
+// ------------------------------------------------------------------------------------------------
+pub use dashu_base::Approximation::{self, Exact, Inexact};
+pub use dashu_float::round::{mode, Rounding};
+pub use dashu_float::{Context, FBig, Repr};
+pub use dashu_ratio::{RBig, Relaxed};
+
+/// signed decimal `isize` token (exponents): `[-]hex`
+pub fn isz(s: &str) -> isize {
+    match s.strip_prefix('-') {
+        Some(b) => -(isize::from_str_radix(b, 16).expect("isize")),
+        None => isize::from_str_radix(s, 16).expect("isize"),
+    }
+}
+
+pub fn hisz(v: isize) -> String {
+    if v < 0 {
+        format!("-{:x}", (v as i128).unsigned_abs())
+    } else {
+        format!("{:x}", v)
+    }
+}
+
+pub fn rounding_str(r: Rounding) -> &'static str {
+    match r {
+        Rounding::NoOp => "NoOp",
+        Rounding::AddOne => "AddOne",
+        Rounding::SubOne => "SubOne",
+    }
+}
+
+/// a float value as tokens: `<significand hex> <exponent hex>` or `inf` / `-inf`
+pub fn hrepr<const B: Word>(r: &Repr<B>) -> String {
+    if r.is_infinite() {
+        return if r.sign() == Sign::Negative { "-inf 0".into() } else { "inf 0".into() };
+    }
+    format!("{} {}", hi(r.significand()), hisz(r.exponent()))
+}
+
+/// `Rounded<FBig>` as tokens: `<sig> <exp> <Exact|NoOp|AddOne|SubOne> <precision hex>`
+pub fn hrounded<R: dashu_float::round::Round, const B: Word>(x: &Approximation<FBig<R, B>, Rounding>) -> String {
+    match x {
+        Exact(v) => format!("{} Exact {:x}", hrepr(v.repr()), v.precision()),
+        Inexact(v, r) => format!("{} {} {:x}", hrepr(v.repr()), rounding_str(*r), v.precision()),
+    }
+}
+
+/// build a float from case tokens `<sig> <exp>` (`inf`/`-inf` as significand give the infinities)
+pub fn repr_of<const B: Word>(sig: &str, exp: &str) -> Repr<B> {
+    match sig {
+        "inf" => Repr::infinity(),
+        "-inf" => Repr::neg_infinity(),
+        _ => Repr::new(ibig(sig), isz(exp)),
+    }
+}
+
+/// Dispatch on (base, mode) tokens to concrete const-generic types.
+/// Usage: `with_float!(base_str, mode_str, |R, B| expr_using::<R, B>())` where inside the body the
+/// identifiers given are a type alias (the rounding mode) and a const (the base).
+#[macro_export]
+macro_rules! with_float {
+    ($base:expr, $mode:expr, |$R:ident, $B:ident| $body:expr) => {{
+        macro_rules! __with_mode {
+            ($bb:literal) => {{
+                const $B: $crate::Word = $bb;
+                match $mode {
+                    "Zero" => { type $R = $crate::mode::Zero; $body }
+                    "Away" => { type $R = $crate::mode::Away; $body }
+                    "Up" => { type $R = $crate::mode::Up; $body }
+                    "Down" => { type $R = $crate::mode::Down; $body }
+                    "HalfEven" => { type $R = $crate::mode::HalfEven; $body }
+                    "HalfAway" => { type $R = $crate::mode::HalfAway; $body }
+                    other => panic!("unknown mode {}", other),
+                }
+            }};
+        }
+        match $base {
+            "2" => __with_mode!(2),
+            "3" => __with_mode!(3),
+            "5" => __with_mode!(5),
+            "7" => __with_mode!(7),
+            "8" => __with_mode!(8),
+            "a" => __with_mode!(10),
+            "10" => __with_mode!(16),
+            "24" => __with_mode!(36),
+            other => panic!("unsupported base {} (hex)", other),
+        }
+    }};
+}
+
+pub fn rbig(num: &str, den: &str) -> RBig {
+    RBig::from_parts(ibig(num), ubig(den))
+}
+
+pub fn relaxed(num: &str, den: &str) -> Relaxed {
+    Relaxed::from_parts(ibig(num), ubig(den))
+}
+
+/// a rational as tokens `<num> <den>` exactly as stored (no reduction by the harness)
+pub fn hq(x: &RBig) -> String {
+    format!("{} {}", hi(x.numerator()), hu(x.denominator()))
+}
+
+pub fn hqr(x: &Relaxed) -> String {
+    format!("{} {}", hi(x.numerator()), hu(x.denominator()))
 }
